@@ -37,7 +37,7 @@ fn parse_tz(name: &str) -> Tz {
 }
 
 /// Transitions (UTC instants at which the offset changes) of a zone in a year, found by scanning.
-fn transitions(tz: Tz, year: i32, cache: &mut HashMap<(Tz, i32), Vec<(NaiveDateTime, i32, i32)>>) -> Vec<(NaiveDateTime, i32, i32)> {
+pub fn transitions(tz: Tz, year: i32, cache: &mut HashMap<(Tz, i32), Vec<(NaiveDateTime, i32, i32)>>) -> Vec<(NaiveDateTime, i32, i32)> {
     if let Some(v) = cache.get(&(tz, year)) {
         return v.clone();
     }
